@@ -160,6 +160,10 @@ func ParseSm2PublicKey(der []byte) (*sm2.PublicKey, error) {
 	}
 	curve := sm2.P256Sm2()
 	x, y := elliptic.Unmarshal(curve, pubkey.BitString.Bytes)
+	if x == nil {
+		// wrong length, unknown form or a point that is not on the curve
+		return nil, errors.New("x509: failed to unmarshal sm2 curve point")
+	}
 	pub := sm2.PublicKey{
 		Curve: curve,
 		X:     x,
